@@ -16,8 +16,8 @@ def classify(case_line):
 
 
 CFG = dict(
-    imports=["From Verif.C42 Require Import Model Spec."],
-    checker="check_case",
+    imports=["From Verif.C42 Require Import Model Spec ModelMg Check3."],
+    checker="check_case3",
     n=dict(quick=100, thorough=3000),
     shard=30,
     classify=classify,
@@ -30,13 +30,13 @@ CFG = dict(
          "non-trivial = >=10 single writes, a completed apply, and a failed apply, a restart or >=4 frontends; distinct by the "
          "whole history",
     trusted=["Coq 8.16.1 kernel + vm_compute",
-             "hand-written model coq/theories/C42/Model.v tied to felix/bpf/proxy/syncer.go by this correspondence run",
+             "hand-written models coq/theories/C42/Model.v (two NAT maps) and ModelMg.v (NAT maps + Maglev LUT map, both phase orders) tied to felix/bpf/proxy/syncer.go by this correspondence run: the complete recorded schedule of single writes to all three maps must be one the models accept, with equal error flag and equal maps",
              "Go driver harness/C42 (overlay build, tag verif) incl. the recording wrapper around felix/bpf/mock.Map and the "
              "visit-order recorder shim in felix/bpf/proxy"],
     assumptions=["IPv4, no loadBalancerSourceRanges (black-hole frontends), no topology hints, no excluded CIDRs, service is not default/kubernetes",
                  "fewer than 2^32 service ids are allocated (uint32 wrap of nextSvcID not modelled)",
                  "a failed map write leaves the map unchanged; nothing but the Syncer writes the maps while it runs",
-                 "Maglev LUT map: every write to it is recorded too; after EACH single write of any of the three maps the oracle checks that every maglev-flagged frontend with backends finds a complete table (lutSize 7 in the driver); at the end of a completed sync: table over the ready endpoints, no stale table.  The table contents (consistent hash, C33) are an explicit parameter of the model; maglev writes are never made to fail",
+                 "Maglev LUT map: every write to it is recorded too; after EACH single write of any of the three maps the oracle checks that every maglev-flagged frontend with backends finds a complete table (lutSize 7 in the driver); at the end of a completed sync: table over the ready endpoints, no stale table.  The table contents (consistent hash, C33) are an explicit parameter of the model (the driver computes them with felix/bpf/consistenthash as the syncer does); maglev writes are never made to fail; the driver probes whether the tree uses the pinned or the repaired LUT phase order (k_mgfix)",
                  "cachingmap behaviour (a failed write stays pending, the other writes of the phase go on, the phase reports the error) is the one proved for the CachingMap model in C18 (c18_cache_failed_update_stays_pending, c18_cache_failed_delete_stays_pending, c18_cache_exact_after_failures); cited, not imported",
                  "affinity map cleanup not modelled",
                  "final_exact oracle: ExternalIP frontends and per-remote-node node-port frontends are not required to carry a local-only flag (the code never sets one on ExternalIP frontends)"],
